@@ -108,6 +108,11 @@ func prior(t *rapid.T) cfg.Big {
 	for i := 0; i < nk; i++ {
 		b.Kids = append(b.Kids, cfg.GenKid(t, b.ID, i))
 	}
+	if rapid.Bool().Draw(t, "spareCapacity") {
+		// slices with spare capacity holding stale values, as left behind by an
+		// earlier Decode that trimmed them
+		b = cfg.SpareCapacity(b, rapid.IntRange(1, 4).Draw(t, "extraCap"), cfg.GenBig(t))
+	}
 	return b
 }
 
@@ -152,13 +157,13 @@ func describe(ps data.Points) string {
 }
 
 func check(t *rapid.T, name string, base cfg.Big, run func(b *cfg.Big, extra bool) error, ps data.Points) {
-	a := cfg.Clone(base)
+	a := cfg.CloneCap(base)
 	oa := guard(func() error { return run(&a, false) })
 	if oa.panicked != nil {
 		t.Fatalf("%s panicked: %v\npoints: %s\n%s", name, oa.panicked, describe(ps), oa.stack)
 	}
 	// metamorphic: points of undeclared types change neither the value nor the error-ness
-	b := cfg.Clone(base)
+	b := cfg.CloneCap(base)
 	ob := guard(func() error { return run(&b, true) })
 	if ob.panicked != nil {
 		t.Fatalf("%s (with undeclared points added) panicked: %v\npoints: %s\n%s", name, ob.panicked, describe(ps), ob.stack)
